@@ -87,11 +87,14 @@ def run_chain(case):
     recv = case.get("recv", "fresh")
     x, parent = c02.build_receiver(recv, flat, lens)
     tags = ["op:chain", "kind:" + dt.kind, "recv:" + recv, "chain:%d" % len(case["steps"])] + gen.empty_placement(lens)
+    probe = flat[:0]
     for k, st in enumerate(case["steps"]):
         st = tuple(st)
         tags.append("chain-step:" + st[0])
         try:
             exp_rows = chain_step_rows(st, rows)
+            if st[0] not in ("rowsel", "write"):
+                probe = chain_step_rows(st, [probe])[0]        # numpy's verdict on an empty row of the current element type (decides also when there are no rows)
         except Exception as e:
             return undefined("numpy raises at step %d: %r" % (k, e), tags)
         CTX.tick("c07:compare", sum(lens) > 0)
